@@ -30,6 +30,7 @@ fn is_void0(e: &Expr) -> bool { matches!(e, Expr::Unary(UnaryExpr { op: UnaryOp:
 /// modifiers (each true); `v-name:arg` gives the argument; with modifiers and no argument the argument slot is `void 0`
 /// so that modifiers land in position 4 of the binding.
 fn spelling<const K: u8>() {
+    use_global_inputs();
     // (attribute, expected name, expected arg, expected modifiers)
     let (a, name, arg, mods): (JSXAttr, &str, Option<&str>, &[&str]) = match K {
         0 => (jsx_attr("v-foo", Some(container(opaque(1)))), "foo", None, &[]),
@@ -44,7 +45,10 @@ fn spelling<const K: u8>() {
         9 => (jsx_attr("v-my-dir", Some(container(opaque(1)))), "my-dir", None, &[]),
         10 => (jsx_attr("v-vis", Some(container(opaque(1)))), "vis", None, &[]),           // the name itself starts with `v`
         11 => (jsx_ns_attr("v-vis", "top", Some(container(opaque(1)))), "vis", Some("top"), &[]),
-        _ => (jsx_attr("v-foo_a", Some(container(garray([el(opaque(1))])))), "foo", None, &["a"]),   // suffix modifiers with the [v] form
+        12 => (jsx_attr("v-foo_a", Some(container(garray([el(opaque(1))])))), "foo", None, &["a"]),   // suffix modifiers with the [v] form
+        13 => (jsx_attr("v-foo_2x", Some(container(opaque(1)))), "foo", None, &["2x"]),                // modifier that is not an identifier name
+        14 => (jsx_attr("v-_a", Some(container(opaque(1)))), "", None, &["a"]),                        // empty directive name (parseable: must not panic)
+        _ => (jsx_attr("v-\u{e9}l", Some(container(opaque(1)))), "\u{e9}l", None, &[]),                // name starting with a 2-byte character
     };
     let is_component: bool = kani::any();
     let e0 = errors();
@@ -57,6 +61,7 @@ fn spelling<const K: u8>() {
                 None => if mods.is_empty() { assert!(d.argument.is_none(), "C04: no argument when none was written") } else { assert!(matches!(&d.argument, Some(e) if is_void0(e)), "C04: `_mod` suffixes are modifiers, not an argument (argument slot is `void 0`)") },
             }
             assert!(mods_are(&d.modifiers, mods, false), "C04: modifiers are exactly the `_mod` suffixes, each true");
+            if K == 13 { assert!(matches!(&d.modifiers, Some(Expr::Object(o)) if matches!(&o.props[0], PropOrSpread::Prop(p) if matches!(&**p, Prop::KeyValue(KeyValueProp { key: PropName::Str(..), .. })))), "C07: a modifier that is not an identifier name is emitted as a quoted key"); }
             std::mem::forget(d);
         }
         _ => assert!(false, "C04: a plain directive yields a normal runtime binding"),
@@ -64,14 +69,16 @@ fn spelling<const K: u8>() {
     assert!(errors() == e0, "C04: a well-formed directive reports no error");
     std::mem::forget(a);
 }
-macro_rules! sp_h { ($($n:ident: $k:expr;)*) => { $(#[kani::proof] #[kani::unwind(7)] #[kani::stub(std::ptr::drop_in_place, no_drop)] #[kani::stub(core::ptr::drop_glue, no_glue)] fn $n() { spelling::<$k>() })* } }
+macro_rules! sp_h { ($($n:ident: $k:expr;)*) => { $(#[kani::proof] #[kani::unwind(7)] #[kani::stub(std::ptr::drop_in_place, no_drop)] #[kani::stub(core::ptr::drop_glue, no_glue)] #[kani::stub(alloc::alloc::dealloc, no_dealloc)] fn $n() { spelling::<$k>() })* } }
 sp_h! { dirspell_kebab: 0; dirspell_camel: 1; dirspell_camel_inner_upper: 2; dirspell_one_modifier: 3; dirspell_two_modifiers: 4;
         dirspell_ns_arg: 5; dirspell_ns_arg_modifier: 6; dirspell_camel_ns: 7; dirspell_show: 8; dirspell_kebab_inner: 9;
-        dirspell_name_starts_with_v: 10; dirspell_ns_name_starts_with_v: 11; dirspell_suffix_with_array_form: 12; }
+        dirspell_name_starts_with_v: 10; dirspell_ns_name_starts_with_v: 11; dirspell_suffix_with_array_form: 12;
+        dirspell_digit_modifier: 13; dirspell_empty_name: 14; dirspell_multibyte_name: 15; }
 
 /// Value-form contract (C04): [v], [v,arg], [v,[mods]], [v,arg,[mods]]; holes / spreads / empty arrays / missing
 /// values must either give a well-formed binding or report an error (C07 placeholder rule).
 fn value_form<const F: u8>() {
+    use_global_inputs();
     let modlist = || garray([el(strlit("b")), el(strlit("a"))]);
     let value: Option<JSXAttrValue> = match F {
         0 => Some(container(garray([el(opaque(1))]))),
@@ -109,11 +116,12 @@ fn value_form<const F: u8>() {
     }
     std::mem::forget(a);
 }
-macro_rules! vf_h { ($($n:ident: $k:expr;)*) => { $(#[kani::proof] #[kani::unwind(12)] #[kani::stub(std::ptr::drop_in_place, no_drop)] #[kani::stub(core::ptr::drop_glue, no_glue)] fn $n() { value_form::<$k>() })* } }
+macro_rules! vf_h { ($($n:ident: $k:expr;)*) => { $(#[kani::proof] #[kani::unwind(12)] #[kani::stub(std::ptr::drop_in_place, no_drop)] #[kani::stub(core::ptr::drop_glue, no_glue)] #[kani::stub(alloc::alloc::dealloc, no_dealloc)] fn $n() { value_form::<$k>() })* } }
 vf_h! { dirval_v: 0; dirval_v_arg: 1; dirval_v_mods: 2; dirval_v_arg_mods: 3; dirval_empty_array: 4; dirval_hole: 5; dirval_absent: 6; dirval_string: 7; dirval_nonident_modifier: 8; }
 
 /// v-html / v-text (C04 value, C08 totality over every attribute-value kind).
 fn html_text<const TEXT: bool, const KIND: u8>() {
+    use_global_inputs();
     let value = match KIND {
         0 => None,
         1 => Some(str_value("x")),
@@ -135,12 +143,13 @@ fn html_text<const TEXT: bool, const KIND: u8>() {
     }
     std::mem::forget(d); std::mem::forget(a);
 }
-macro_rules! ht_h { ($($n:ident: $t:expr, $k:expr;)*) => { $(#[kani::proof] #[kani::unwind(8)] #[kani::stub(std::ptr::drop_in_place, no_drop)] #[kani::stub(core::ptr::drop_glue, no_glue)] fn $n() { html_text::<$t, $k>() })* } }
+macro_rules! ht_h { ($($n:ident: $t:expr, $k:expr;)*) => { $(#[kani::proof] #[kani::unwind(8)] #[kani::stub(std::ptr::drop_in_place, no_drop)] #[kani::stub(core::ptr::drop_glue, no_glue)] #[kani::stub(alloc::alloc::dealloc, no_dealloc)] fn $n() { html_text::<$t, $k>() })* } }
 ht_h! { vhtml_absent: false, 0; vhtml_str: false, 1; vhtml_expr: false, 2; vhtml_array: false, 3; vhtml_empty: false, 4; vhtml_element: false, 5; vhtml_fragment: false, 6;
         vtext_absent: true, 0; vtext_str: true, 1; vtext_expr: true, 2; vtext_array: true, 3; vtext_empty: true, 4; vtext_element: true, 5; vtext_fragment: true, 6; }
 
 /// v-model parsing (C05): argument / modifiers forms, plain and namespaced, element and component.
 fn vmodel<const F: u8>() {
+    use_global_inputs();
     let modlist = || garray([el(strlit("trim"))]);
     let (a, arg, mods): (JSXAttr, u8, &[&str]) = match F { // arg: 0 none, 1 "foo", 2 opaque(2)
         0 => (jsx_attr("v-model", Some(container(opaque(1)))), 0, &[]),
@@ -172,7 +181,7 @@ fn vmodel<const F: u8>() {
     }
     std::mem::forget(a);
 }
-macro_rules! vm_h { ($($n:ident: $k:expr;)*) => { $(#[kani::proof] #[kani::unwind(12)] #[kani::stub(std::ptr::drop_in_place, no_drop)] #[kani::stub(core::ptr::drop_glue, no_glue)] fn $n() { vmodel::<$k>() })* } }
+macro_rules! vm_h { ($($n:ident: $k:expr;)*) => { $(#[kani::proof] #[kani::unwind(12)] #[kani::stub(std::ptr::drop_in_place, no_drop)] #[kani::stub(core::ptr::drop_glue, no_glue)] #[kani::stub(alloc::alloc::dealloc, no_dealloc)] fn $n() { vmodel::<$k>() })* } }
 vm_h! { vmodel_plain: 0; vmodel_suffix_modifier: 1; vmodel_ns_arg: 2; vmodel_ns_arg_modifier: 3; vmodel_array_strarg: 4; vmodel_array_computed: 5; vmodel_array_mods: 6; vmodel_array_arg_mods: 7; vmodel_camel: 8; vmodel_ns_arg_array_form: 9; vmodel_ns_arg_modifier_array_form: 10; }
 
 /// resolve_directive (C04 vShow / resolveDirective(name); C05 model directive by host and `type`).
@@ -207,31 +216,8 @@ fn resolve<const NAME: u8, const HOST: u8, const TYPE: u8>() {
     }
     std::mem::forget(e); std::mem::forget(el); std::mem::forget(v);
 }
-macro_rules! rs_h { ($($n:ident: $a:expr, $b:expr, $c:expr;)*) => { $(#[kani::proof] #[kani::unwind(8)] #[kani::stub(std::ptr::drop_in_place, no_drop)] #[kani::stub(core::ptr::drop_glue, no_glue)] #[kani::stub(alloc::fmt::format, fmt_marker)] fn $n() { resolve::<$a, $b, $c>() })* } }
+macro_rules! rs_h { ($($n:ident: $a:expr, $b:expr, $c:expr;)*) => { $(#[kani::proof] #[kani::unwind(8)] #[kani::stub(std::ptr::drop_in_place, no_drop)] #[kani::stub(core::ptr::drop_glue, no_glue)] #[kani::stub(alloc::alloc::dealloc, no_dealloc)] #[kani::stub(alloc::fmt::format, fmt_marker)] fn $n() { resolve::<$a, $b, $c>() })* } }
 rs_h! { resolve_show: 0, 3, 0; resolve_custom: 2, 3, 0; resolve_model_input_notype: 1, 0, 0; resolve_model_input_checkbox: 1, 0, 1; resolve_model_input_radio: 1, 0, 2;
         resolve_model_input_text: 1, 0, 3; resolve_model_input_dynamic: 1, 0, 4; resolve_model_input_type_after_other: 1, 0, 5; resolve_model_select: 1, 1, 0;
         resolve_model_select_with_type: 1, 1, 1; resolve_model_textarea: 1, 2, 0; resolve_model_other_element: 1, 3, 0; }
 
-#[kani::proof] #[kani::unwind(7)] #[kani::stub(std::ptr::drop_in_place, no_drop)] #[kani::stub(core::ptr::drop_glue, no_glue)]
-fn dirspell_probe_inplace() {
-    let a = JSXAttr { span: sp(5), name: JSXAttrName::Ident(IdentName { span: DUMMY_SP, sym: Atom::from("v-foo") }), value: Some(container(opaque(1))) };
-    match parse_directive(&a, kani::any()) {
-        Directive::Normal(d) => { assert!(&*d.name == "foo"); assert!(d.modifiers.is_none()); std::mem::forget(d); }
-        _ => assert!(false),
-    }
-    std::mem::forget(a);
-}
-#[kani::proof] #[kani::unwind(6)] #[kani::stub(std::ptr::drop_in_place, no_drop)] #[kani::stub(core::ptr::drop_glue, no_glue)]
-fn dirspell_probe_v1() {
-    let a = JSXAttr { span: sp(5), name: JSXAttrName::Ident(idn("class")), value: None };
-    let mut n = 0;
-    if directive::is_directive(&a) { match directive::parse_directive(&a, false) { directive::Directive::Normal(d) => { std::mem::forget(d); n = 100; } _ => { n = 50; } } }
-    assert!(n == 0);
-    std::mem::forget(a);
-}
-#[kani::proof] #[kani::unwind(6)] #[kani::stub(std::ptr::drop_in_place, no_drop)] #[kani::stub(core::ptr::drop_glue, no_glue)]
-fn dirspell_probe_v1b() {
-    let a = JSXAttr { span: sp(5), name: JSXAttrName::Ident(idn("v-foo")), value: None };
-    match directive::parse_directive(&a, false) { directive::Directive::Normal(d) => { assert!(&*d.name == "foo"); std::mem::forget(d); } _ => { assert!(false); } }
-    std::mem::forget(a);
-}
